@@ -70,7 +70,11 @@ pub fn new(parameters: &RawParameters, ctx: &dyn Context) -> Result<Op, Error> {
         steps.push(Op::op(step_parameters, ctx)?);
     }
 
-    let params = ParsedParameters::new(parameters, &GAMUT)?;
+    // The text of a pipeline consists of steps, not of parameters: do not read it
+    // as one long parameter list (modifiers of the steps would become modifiers
+    // of the pipeline, and `inv=true |` a BadParam)
+    let own = parameters.next("pipeline");
+    let params = ParsedParameters::new(&own, &GAMUT)?;
     let fwd = InnerOp(pipeline_fwd);
     let inv = InnerOp(pipeline_inv);
     let descriptor = OpDescriptor::new(definition, fwd, Some(inv));
